@@ -322,9 +322,10 @@ Proof.
   destruct (ib_move_decomp _ _ _ _ Em (Nat.le_0_l _)) as (a & b & x & c0 & E1 & -> & Ha & Hb).
   destruct a; [|discriminate]. cbn [app] in *. rewrite Nat.sub_0_r in Hb.
   assert (Hx : x = cleg).
-  { rewrite <- (seq_nth (length shp) 0 0 Hc) at 2. cbn [plus]. rewrite E1, <- Hb. symmetry. apply nth_middle. }
-  rewrite E1. rewrite <- Hb at 2 4. rewrite ib_firstn_app_le by lia. rewrite firstn_all.
-  rewrite (ib_skipn_app_len_S (length b) b x c0 eq_refl). rewrite Hx. reflexivity.
+  { pose proof (@seq_nth (length shp) 0 cleg 0 Hc) as Hn. rewrite E1, <- Hb in Hn.
+    rewrite nth_middle in Hn. lia. }
+  rewrite E1, Hx, <- Hb. rewrite ib_firstn_app_le by lia. rewrite firstn_all.
+  rewrite (ib_skipn_app_len_S (length b) b _ c0 eq_refl). reflexivity.
 Qed.
 
 Lemma open_leg_to_child_decomp n cid leg n' : open_leg_to_child n cid leg = Some n' ->
@@ -353,3 +354,694 @@ Proof.
   unfold laxes, parent_wire, permute. rewrite Hx, E1, E2, !map_app. cbn [map]. rewrite !map_app.
   repeat split; try reflexivity. rewrite map_length. exact E3.
 Qed.
+
+(* ---- owned / logical wires of a well-formed store are old wires ---------------------------------- *)
+Lemma own_of_incl n t : incl (own_of n t) (laxes n t).
+Proof.
+  unfold own_of. intros w Hw. apply in_app_or in Hw. destruct Hw as [Hw|Hw].
+  - rewrite <- (firstn_skipn (nparents n) (laxes n t)). apply in_or_app. left. exact Hw.
+  - rewrite <- (firstn_skipn (nvirt n) (laxes n t)). apply in_or_app. right. exact Hw.
+Qed.
+
+Lemma wf_lax_incl s k n : wf s -> aget k (nodes s) = Some n -> incl (lax s k n) (axes (tens s k)).
+Proof.
+  intros H E. pose proof (wf_node s H k n E) as Hn. unfold lax, laxes. apply permute_incl.
+  replace (length (axes (tens s k))) with (length (shape n)).
+  - apply perm_bound. apply (ni_perm _ _ _ Hn).
+  - rewrite (ni_shape _ _ _ Hn), map_length. reflexivity.
+Qed.
+
+Lemma wf_lax_bound s k n w : wf s -> aget k (nodes s) = Some n -> In w (lax s k n) -> w < next_wire s.
+Proof.
+  intros H E Hw. apply (wf_wires s H k (tens s k) w); [apply (wf_tens s k n H E)|].
+  apply (wf_lax_incl s k n H E). exact Hw.
+Qed.
+
+Lemma wf_own_bound s k n w : wf s -> aget k (nodes s) = Some n -> In w (own_of n (tens s k)) -> w < next_wire s.
+Proof. intros H E Hw. apply (wf_lax_bound s k n w H E). apply own_of_incl. exact Hw. Qed.
+
+(* flat_map over an updated association list, up to some extra elements *)
+Lemma ib_flat_map_aset_perm_extra {V W} (f f' : nat * V -> list W) (extra : list W) k v v0 l :
+  NoDup (akeys l) -> aget k l = Some v0 -> Permutation (extra ++ f' (k, v)) (f (k, v0)) ->
+  (forall k2 v2, k2 <> k -> In (k2, v2) l -> f' (k2, v2) = f (k2, v2)) ->
+  Permutation (extra ++ flat_map f' (aset k v l)) (flat_map f l).
+Proof.
+  intros Hnd E Hk Hother. induction l as [|[k' v'] t IH]; cbn in *; [discriminate|].
+  inversion Hnd as [|? ? Hni Hnd']; subst.
+  destruct (Nat.eqb_spec k k') as [->|Hne]; cbn.
+  - injection E as ->. rewrite app_assoc. rewrite (flat_map_ext_in f' f).
+    + apply Permutation_app_tail. exact Hk.
+    + intros [k2 v2] Hin. apply Hother; [|right; exact Hin]. intros ->.
+      apply Hni. unfold akeys. change k' with (fst (k', v2)). apply in_map. exact Hin.
+  - rewrite (Hother k' v') by (auto; congruence).
+    rewrite Permutation_app_swap_app. apply Permutation_app_head. apply IH; auto.
+Qed.
+
+(* ---- add_child ------------------------------------------------------------------------------ *)
+(* the child's raw axes: fresh wires, with position cleg overwritten by the parent's wire *)
+Definition child_axes (s : store) (shp : list nat) (cleg : nat) (pw : wire) : list wire :=
+  set_nth cleg pw (seq (next_wire s) (length shp)).
+
+(* the store add_child produces *)
+Definition childed (s : store) (c : id) (shp : list nat) (cleg : nat) (p : id) (cn pn' : node) (pw : wire) : store :=
+  {| nodes := aset p pn' (aset c cn (nodes s));
+     tensors := aset c {| axes := child_axes s shp cleg pw; atoms := [next_atom s]; bnd := [] |} (tensors s);
+     root := root s; dims := dims s ++ combine (seq (next_wire s) (length shp)) shp;
+     next_wire := next_wire s + length shp; next_atom := S (next_atom s);
+     defs := defs s; atab := atab s ++ [(next_atom s, child_axes s shp cleg pw)] |}.
+
+Lemma add_child_inv s c shp cleg p pleg s' : add_child s c shp cleg p pleg = Some s' ->
+  exists pn pt cn pn',
+    aget p (nodes s) = Some pn /\ aget p (tensors s) = Some pt /\ amem c (nodes s) = false /\
+    cleg < length shp /\ pleg < nlegs pn /\
+    nth cleg shp 0 = wdim s (parent_wire pn pt pleg) /\
+    open_leg_to_parent (new_node shp) p cleg = Some cn /\ open_leg_to_child pn c pleg = Some pn' /\
+    s' = childed s c shp cleg p cn pn' (parent_wire pn pt pleg).
+Proof.
+  unfold add_child. destruct (aget p (nodes s)) as [pn|] eqn:Ep; [|discriminate].
+  destruct (aget p (tensors s)) as [pt|] eqn:Et; [|discriminate].
+  destruct (amem c (nodes s)) eqn:Ec; [discriminate|].
+  destruct (Nat.ltb_spec cleg (length shp)) as [H1|H1]; cbn [negb]; [|discriminate].
+  destruct (Nat.ltb_spec pleg (nlegs pn)) as [H2|H2]; cbn [negb]; [|discriminate].
+  fold (parent_wire pn pt pleg).
+  destruct (Nat.eqb_spec (nth cleg shp 0) (wdim s (parent_wire pn pt pleg))) as [H3|H3]; cbn [negb]; [|discriminate].
+  destruct (open_leg_to_parent (new_node shp) p cleg) as [cn|] eqn:E1; [|discriminate].
+  destruct (open_leg_to_child pn c pleg) as [pn'|] eqn:E2; [|discriminate].
+  destruct (fresh_wires s shp) as [s1 ws] eqn:E3.
+  destruct (fresh_wires_spec _ _ _ _ E3) as (-> & F2 & F3 & F4 & F5 & F6 & F7 & F8 & F9).
+  cbn. intros [= <-]. exists pn, pt, cn, pn'. repeat split; auto.
+  unfold childed, child_axes. rewrite F2, F3, F4, F5, F6, F7, F8, F9. reflexivity.
+Qed.
+
+Section AddChild.
+  Variables (s : store) (c : id) (shp : list nat) (cleg : nat) (p : id) (pleg : nat).
+  Variables (pn : node) (pt : sarr) (cn pn' : node).
+  Hypothesis Hwf : wf s.
+  Hypothesis Ep : aget p (nodes s) = Some pn.
+  Hypothesis Et : aget p (tensors s) = Some pt.
+  Hypothesis Ec : amem c (nodes s) = false.
+  Hypothesis Hcleg : cleg < length shp.
+  Hypothesis Hdimeq : nth cleg shp 0 = wdim s (parent_wire pn pt pleg).
+  Hypothesis Hcn : open_leg_to_parent (new_node shp) p cleg = Some cn.
+  Hypothesis Hpn' : open_leg_to_child pn c pleg = Some pn'.
+
+  Local Notation pw := (parent_wire pn pt pleg).
+  Local Notation ws := (seq (next_wire s) (length shp)).
+  Local Notation ws' := (child_axes s shp cleg pw).
+  Local Notation tc := {| axes := ws'; atoms := [next_atom s]; bnd := [] |}.
+  Local Notation s' := (childed s c shp cleg p cn pn' pw).
+  Local Notation rest := (firstn cleg ws ++ skipn (S cleg) ws).
+
+  (* -- keys -- *)
+  Lemma ac_c_absent : aget c (nodes s) = None.
+  Proof. unfold amem in Ec. destruct (aget c (nodes s)); [discriminate|reflexivity]. Qed.
+
+  Lemma ac_c_ne_p : c <> p.
+  Proof. intros E. pose proof ac_c_absent as H. rewrite E, Ep in H. discriminate. Qed.
+
+  Lemma ac_c_absent_t : aget c (tensors s) = None.
+  Proof.
+    destruct (aget c (tensors s)) as [t|] eqn:E; [|reflexivity].
+    assert (H : amem c (nodes s) = true) by (apply (wf_tn s Hwf); apply amem_aget; eauto). congruence.
+  Qed.
+
+  Lemma ac_old_ne_c k nk : aget k (nodes s) = Some nk -> k <> c.
+  Proof. intros E ->. rewrite ac_c_absent in E. discriminate. Qed.
+
+  Lemma ac_parent_old k nk q : aget k (nodes s) = Some nk -> parent nk = Some q -> q <> c.
+  Proof.
+    intros E Hq. destruct (ni_par _ _ _ (wf_node s Hwf k nk E) q Hq) as (qn & i & Eq & _).
+    apply (ac_old_ne_c q qn Eq).
+  Qed.
+
+  (* -- the new store, pointwise -- *)
+  Lemma ac_nodes k :
+    aget k (nodes s') = if Nat.eqb k p then Some pn' else if Nat.eqb k c then Some cn else aget k (nodes s).
+  Proof. unfold childed. cbn [nodes]. rewrite !aget_aset. reflexivity. Qed.
+
+  Lemma ac_tens k : tens s' k = if Nat.eqb k c then tc else tens s k.
+  Proof. unfold tens, childed. cbn [tensors]. rewrite aget_aset. destruct (Nat.eqb k c); reflexivity. Qed.
+
+  Lemma ac_amem_t k : amem k (tensors s') = Nat.eqb k c || amem k (tensors s).
+  Proof. unfold amem, childed. cbn [tensors]. rewrite aget_aset. destruct (Nat.eqb k c); reflexivity. Qed.
+
+  Lemma ac_tens_p : tens s p = pt.
+  Proof. apply tens_aget. exact Et. Qed.
+
+  Lemma ac_tens_p' : tens s' p = pt.
+  Proof.
+    rewrite ac_tens. destruct (Nat.eqb_spec p c) as [E|_]; [symmetry in E; destruct (ac_c_ne_p E)|].
+    apply ac_tens_p.
+  Qed.
+
+  Lemma ac_node_cases k nk' : aget k (nodes s') = Some nk' ->
+    (k = p /\ nk' = pn') \/ (k = c /\ nk' = cn) \/ (k <> p /\ k <> c /\ aget k (nodes s) = Some nk').
+  Proof.
+    rewrite ac_nodes. destruct (Nat.eqb_spec k p) as [->|Hp]; [intros [= <-]; auto|].
+    destruct (Nat.eqb_spec k c) as [->|Hc]; [intros [= <-]; auto|]. auto.
+  Qed.
+
+  (* -- dimensions -- *)
+  Lemma ac_wdim_old w : w < next_wire s -> wdim s' w = wdim s w.
+  Proof.
+    intros Hw. destruct (fresh_wires s shp) as [s1 ws0] eqn:E.
+    pose proof (fresh_wires_wdim_old _ _ _ _ w E Hw) as H.
+    destruct (fresh_wires_spec _ _ _ _ E) as (-> & E2 & _).
+    unfold wdim in *. unfold childed. cbn [dims]. unfold wire in *. rewrite <- E2. exact H.
+  Qed.
+
+  Lemma ac_wdim_new : map (wdim s') ws = shp.
+  Proof.
+    destruct (fresh_wires s shp) as [s1 ws0] eqn:E.
+    pose proof (fresh_wires_wdim_new _ _ _ _ E (wf_dims s Hwf)) as H.
+    destruct (fresh_wires_spec _ _ _ _ E) as (-> & E2 & _).
+    etransitivity; [|exact H]. apply map_ext. intros w. unfold wdim, childed. cbn [dims]. unfold wire in *. rewrite <- E2. reflexivity.
+  Qed.
+
+  Lemma ac_shape_old k nk : aget k (nodes s) = Some nk -> shape nk = map (wdim s') (axes (tens s k)).
+  Proof.
+    intros E. rewrite (ni_shape _ _ _ (wf_node s Hwf k nk E)). apply map_ext_in. intros w Hw. symmetry.
+    apply ac_wdim_old. apply (wf_wires s Hwf k (tens s k) w); [apply (wf_tens s k nk Hwf E)|exact Hw].
+  Qed.
+
+  (* -- the parent -- *)
+  Lemma ac_pn'_parent : parent pn' = parent pn.
+  Proof. apply (open_leg_to_child_decomp _ _ _ _ Hpn'). Qed.
+
+  Lemma ac_pn'_children : children pn' = children pn ++ [c].
+  Proof. apply (open_leg_to_child_decomp _ _ _ _ Hpn'). Qed.
+
+  Lemma ac_pn'_nparents : nparents pn' = nparents pn.
+  Proof. apply nparents_ext. apply ac_pn'_parent. Qed.
+
+  Lemma ac_pn'_nvirt : nvirt pn' = S (nvirt pn).
+  Proof. unfold nvirt. rewrite ac_pn'_nparents, ac_pn'_children, app_length. cbn. lia. Qed.
+
+  Lemma ac_parent_laxes : exists LA LB LC,
+    laxes pn pt = LA ++ LB ++ pw :: LC /\ laxes pn' pt = LA ++ pw :: LB ++ LC /\ length LA = nvirt pn.
+  Proof. apply (open_leg_to_child_laxes _ _ _ _ _ Hpn'). Qed.
+
+  Lemma ac_parent_own : exists X Y Z,
+    own_of pn pt = X ++ Y ++ pw :: Z /\ own_of pn' pt = X ++ Y ++ Z /\
+    open_of pn pt = Y ++ pw :: Z /\ open_of pn' pt = Y ++ Z.
+  Proof.
+    destruct ac_parent_laxes as (LA & LB & LC & E1 & E2 & E3).
+    assert (Hle : nparents pn <= length LA) by (rewrite E3; unfold nvirt; lia).
+    exists (firstn (nparents pn) LA), LB, LC. unfold own_of, open_of.
+    rewrite E1, E2, ac_pn'_nvirt, ac_pn'_nparents.
+    rewrite !(ib_firstn_app_le _ LA _ Hle).
+    rewrite (ib_skipn_app_len _ LA _ E3). rewrite (ib_skipn_app_len_S _ LA _ _ E3). repeat split; reflexivity.
+  Qed.
+
+  Lemma ac_parent_nth_lt i : i < nvirt pn -> nth i (laxes pn' pt) 0 = nth i (laxes pn pt) 0.
+  Proof.
+    destruct ac_parent_laxes as (LA & LB & LC & E1 & E2 & E3). intros Hi.
+    rewrite E1, E2, !app_nth1 by lia. reflexivity.
+  Qed.
+
+  Lemma ac_parent_nth_v : nth (nvirt pn) (laxes pn' pt) 0 = pw.
+  Proof. destruct ac_parent_laxes as (LA & LB & LC & E1 & E2 & E3). rewrite E2, <- E3. apply nth_middle. Qed.
+
+  Lemma ac_pw_bound : pw < next_wire s.
+  Proof.
+    apply (wf_lax_bound s p pn pw Hwf Ep). unfold lax. rewrite ac_tens_p.
+    destruct ac_parent_laxes as (LA & LB & LC & E1 & _). rewrite E1.
+    apply in_or_app. right. apply in_or_app. right. left. reflexivity.
+  Qed.
+
+  Lemma ac_pw_own : In pw (own_of pn pt).
+  Proof.
+    destruct ac_parent_own as (X & Y & Z & O1 & _). rewrite O1.
+    apply in_or_app. right. apply in_or_app. right. left. reflexivity.
+  Qed.
+
+  (* -- the child -- *)
+  Lemma ac_cn : parent cn = Some p /\ children cn = [] /\ shape cn = shp /\
+    perm cn = cleg :: firstn cleg (seq 0 (length shp)) ++ skipn (S cleg) (seq 0 (length shp)).
+  Proof. apply open_leg_to_parent_new; assumption. Qed.
+
+  Lemma ac_cn_nvirt : nparents cn = 1 /\ nvirt cn = 1.
+  Proof. destruct ac_cn as (H1 & H2 & _). unfold nvirt, nparents. rewrite H1, H2. split; reflexivity. Qed.
+
+  Lemma ac_ws'_length : length ws' = length shp.
+  Proof. unfold child_axes. rewrite ib_set_nth_length, seq_length. reflexivity. Qed.
+
+  Lemma ac_child_laxes : laxes cn tc = pw :: rest.
+  Proof.
+    destruct ac_cn as (_ & _ & _ & E). unfold laxes. rewrite E. cbn [axes].
+    pose proof (permute_seq 0 ws') as Hp. pose proof ac_ws'_length as Hl. unfold wire in *.
+    rewrite Hl in Hp. unfold permute in *.
+    cbn [map]. f_equal.
+    - unfold child_axes. apply ib_nth_set_nth. rewrite seq_length. exact Hcleg.
+    - rewrite map_app, <- firstn_map, <- skipn_map, Hp.
+      unfold child_axes. rewrite ib_firstn_set_nth, ib_skipn_set_nth. reflexivity.
+  Qed.
+
+  Lemma ac_child_own : own_of cn tc = pw :: rest.
+  Proof.
+    destruct ac_cn_nvirt as [H1 H2]. unfold own_of. rewrite H1, H2, firstn_skipn. apply ac_child_laxes.
+  Qed.
+
+  Lemma ac_child_open : open_of cn tc = rest.
+  Proof.
+    destruct ac_cn_nvirt as [H1 H2]. unfold open_of. rewrite H2, ac_child_laxes. reflexivity.
+  Qed.
+
+  Lemma ac_rest_fresh w : In w rest -> next_wire s <= w < next_wire s + length shp.
+  Proof. intros H. apply ib_remove_nth_incl in H. apply in_seq in H. exact H. Qed.
+
+  Lemma ac_rest_nodup : NoDup (pw :: rest).
+  Proof.
+    constructor.
+    - intros H. apply ac_rest_fresh in H. pose proof ac_pw_bound. lia.
+    - apply ib_NoDup_remove_nth. apply seq_NoDup.
+  Qed.
+
+  (* -- every old node has a counterpart with the same parent, at least the same children, the same
+        wires on its neighbour legs -- *)
+  Lemma ac_old_to_new q qn : aget q (nodes s) = Some qn ->
+    exists qn', aget q (nodes s') = Some qn' /\ parent qn' = parent qn /\ incl (children qn) (children qn') /\
+      (forall x i, neighbour_index qn x = Some i ->
+                   neighbour_index qn' x = Some i /\ nth i (lax s' q qn') 0 = nth i (lax s q qn) 0) /\
+      (parent qn <> None -> nth 0 (lax s' q qn') 0 = nth 0 (lax s q qn) 0).
+  Proof.
+    intros E. pose proof (ac_old_ne_c _ _ E) as Hc. rewrite ac_nodes. unfold lax. rewrite ac_tens.
+    destruct (Nat.eqb_spec q c) as [Hqc|_]; [contradiction|].
+    destruct (Nat.eqb_spec q p) as [->|Hp].
+    - rewrite Ep in E. injection E as <-. exists pn'. rewrite ac_tens_p.
+      split; [reflexivity|]. split; [apply ac_pn'_parent|].
+      split; [rewrite ac_pn'_children; apply incl_appl, incl_refl|]. split.
+      + intros x i Hi. split.
+        * apply (ib_neighbour_index_snoc_old pn pn' c); [apply ac_pn'_parent|apply ac_pn'_children|exact Hi].
+        * apply ac_parent_nth_lt. apply (ib_neighbour_index_lt _ _ _ Hi).
+      + intros Hpar. apply ac_parent_nth_lt. unfold nvirt, nparents. destruct (parent pn); [lia|congruence].
+    - exists qn. split; [exact E|]. split; [reflexivity|]. split; [apply incl_refl|]. split; auto.
+  Qed.
+
+  (* -- the ten fields -- *)
+  Lemma ac_f_nd : NoDup (akeys (nodes s')).
+  Proof. unfold childed. cbn [nodes]. apply NoDup_akeys_aset, NoDup_akeys_aset. apply (wf_nd s Hwf). Qed.
+
+  Lemma ac_f_tnd : NoDup (akeys (tensors s')).
+  Proof. unfold childed. cbn [tensors]. apply NoDup_akeys_aset. apply (wf_tnd s Hwf). Qed.
+
+  Lemma ac_f_tn k : amem k (tensors s') = true -> amem k (nodes s') = true.
+  Proof.
+    intros H. apply amem_aget. rewrite ac_nodes. destruct (Nat.eqb k p); [eauto|].
+    destruct (Nat.eqb k c) eqn:Ekc; [eauto|]. rewrite ac_amem_t, Ekc in H. cbn in H.
+    apply amem_aget. apply (wf_tn s Hwf). exact H.
+  Qed.
+
+  Lemma ac_f_root : exists r rn, root s' = Some r /\ aget r (nodes s') = Some rn /\ parent rn = None /\
+    forall k n, aget k (nodes s') = Some n -> parent n = None -> k = r.
+  Proof.
+    destruct (wf_root s Hwf) as (r & rn & Hr & Er & Hpr & Huniq).
+    destruct (ac_old_to_new r rn Er) as (rn' & E1 & E2 & _). exists r, rn'.
+    split; [exact Hr|]. split; [exact E1|]. split; [congruence|].
+    intros k n E Hpar. destruct (ac_node_cases k n E) as [[-> ->]|[[-> ->]|(Hp & Hc & E0)]].
+    - apply (Huniq p pn Ep). rewrite <- ac_pn'_parent. exact Hpar.
+    - destruct ac_cn as (Hcp & _). congruence.
+    - apply (Huniq k n E0 Hpar).
+  Qed.
+
+  Lemma ac_node_p : node_inv s' p pn'.
+  Proof.
+    pose proof (wf_node s Hwf p pn Ep) as Hn.
+    destruct (open_leg_to_child_wf pn c pleg pn' (wf_node_wf s p pn Hwf Ep) Hpn') as ((Hperm & Hv) & _ & _ & Hs & _).
+    constructor.
+    - rewrite ac_amem_t. apply orb_true_iff. right. apply amem_aget. eauto.
+    - exact Hperm.
+    - rewrite ac_tens_p', Hs. pose proof (ac_shape_old p pn Ep) as Hsh. rewrite ac_tens_p in Hsh. exact Hsh.
+    - exact Hv.
+    - rewrite ac_pn'_children. apply NoDup_app_iff. split; [apply (ni_chnd _ _ _ Hn)|]. split.
+      + constructor; [intros []|constructor].
+      + intros x Hx [<-|[]]. destruct (ni_ch _ _ _ Hn c Hx) as (xn & Ex & _).
+        rewrite ac_c_absent in Ex. discriminate.
+    - intros x Hx. rewrite ac_pn'_children in Hx. apply in_app_or in Hx. destruct Hx as [Hx|[<-|[]]].
+      + destruct (ni_ch _ _ _ Hn x Hx) as (xn & Ex & Hxp).
+        destruct (ac_old_to_new x xn Ex) as (xn' & E1 & E2 & _). exists xn'. split; [exact E1|congruence].
+      + exists cn. split; [|apply ac_cn]. rewrite ac_nodes.
+        destruct (Nat.eqb_spec c p) as [E|_]; [destruct (ac_c_ne_p E)|]. rewrite Nat.eqb_refl. reflexivity.
+    - intros q Hq. rewrite ac_pn'_parent in Hq.
+      destruct (ni_par _ _ _ Hn q Hq) as (qn & i & Eq & Hin & Hi & Hw).
+      destruct (ac_old_to_new q qn Eq) as (qn' & E1 & E2 & E3 & E4 & _). destruct (E4 p i Hi) as [E5 E6].
+      exists qn', i. split; [exact E1|]. split; [apply E3; exact Hin|]. split; [exact E5|].
+      rewrite E6, <- Hw. unfold lax. rewrite ac_tens_p', ac_tens_p. apply ac_parent_nth_lt.
+      unfold nvirt, nparents. rewrite Hq. lia.
+  Qed.
+
+  Lemma ac_node_c : node_inv s' c cn.
+  Proof.
+    destruct ac_cn as (Hcp & Hcc & Hcs & Hcperm).
+    destruct (open_leg_to_parent_wf (new_node shp) p cleg cn (new_node_wf shp) Hcn) as ((Hperm & Hv) & _).
+    pose proof (wf_node s Hwf p pn Ep) as Hn.
+    constructor.
+    - rewrite ac_amem_t, Nat.eqb_refl. reflexivity.
+    - exact Hperm.
+    - rewrite ac_tens, Nat.eqb_refl, Hcs. cbn [axes]. unfold child_axes.
+      rewrite ib_map_set_nth, ac_wdim_new, (ac_wdim_old _ ac_pw_bound), <- Hdimeq. symmetry. apply ib_set_nth_same.
+    - exact Hv.
+    - rewrite Hcc. constructor.
+    - rewrite Hcc. intros x [].
+    - intros q Hq. rewrite Hcp in Hq. injection Hq as <-. exists pn', (nvirt pn).
+      split; [rewrite ac_nodes, Nat.eqb_refl; reflexivity|].
+      split; [rewrite ac_pn'_children; apply in_or_app; right; left; reflexivity|]. split.
+      + apply (ib_neighbour_index_snoc_new pn pn' c); [apply ac_pn'_parent|apply ac_pn'_children| |].
+        * intros Hq. destruct (ni_par _ _ _ Hn c Hq) as (qn & i & Eq & _). rewrite ac_c_absent in Eq. discriminate.
+        * intros Hin. destruct (ni_ch _ _ _ Hn c Hin) as (xn & Ex & _). rewrite ac_c_absent in Ex. discriminate.
+      + unfold lax. rewrite ac_tens_p', ac_tens, Nat.eqb_refl, ac_child_laxes, ac_parent_nth_v. reflexivity.
+  Qed.
+
+  Lemma ac_node_other k nk : k <> p -> k <> c -> aget k (nodes s) = Some nk -> node_inv s' k nk.
+  Proof.
+    intros Hp Hc E. pose proof (wf_node s Hwf k nk E) as Hn.
+    assert (Ht : tens s' k = tens s k).
+    { rewrite ac_tens. destruct (Nat.eqb_spec k c); [contradiction|reflexivity]. }
+    constructor.
+    - rewrite ac_amem_t. apply orb_true_iff. right. apply (ni_t _ _ _ Hn).
+    - apply (ni_perm _ _ _ Hn).
+    - rewrite Ht. apply ac_shape_old. exact E.
+    - apply (ni_virt _ _ _ Hn).
+    - apply (ni_chnd _ _ _ Hn).
+    - intros x Hx. destruct (ni_ch _ _ _ Hn x Hx) as (xn & Ex & Hxp).
+      destruct (ac_old_to_new x xn Ex) as (xn' & E1 & E2 & _). exists xn'. split; [exact E1|congruence].
+    - intros q Hq. destruct (ni_par _ _ _ Hn q Hq) as (qn & i & Eq & Hin & Hi & Hw).
+      destruct (ac_old_to_new q qn Eq) as (qn' & E1 & E2 & E3 & E4 & _). destruct (E4 k i Hi) as [E5 E6].
+      exists qn', i. split; [exact E1|]. split; [apply E3; exact Hin|]. split; [exact E5|].
+      rewrite E6, <- Hw. unfold lax. rewrite Ht. reflexivity.
+  Qed.
+
+  Lemma ac_f_node k n : aget k (nodes s') = Some n -> node_inv s' k n.
+  Proof.
+    intros E. destruct (ac_node_cases k n E) as [[-> ->]|[[-> ->]|(Hp & Hc & E0)]].
+    - apply ac_node_p.
+    - apply ac_node_c.
+    - apply ac_node_other; assumption.
+  Qed.
+
+  (* owned wires: the child owns pw and its fresh wires; every other node owns a duplicate-free
+     subset of what it owned before, without pw *)
+  Lemma ac_own k nk' : aget k (nodes s') = Some nk' ->
+    (k = c /\ own_of nk' (tens s' k) = pw :: rest) \/
+    (k <> c /\ NoDup (own_of nk' (tens s' k)) /\ ~ In pw (own_of nk' (tens s' k)) /\
+     exists nk, aget k (nodes s) = Some nk /\ incl (own_of nk' (tens s' k)) (own_of nk (tens s k))).
+  Proof.
+    intros E. destruct (ac_node_cases k nk' E) as [[-> ->]|[[-> ->]|(Hp & Hc & E0)]].
+    - right. split; [intros H; symmetry in H; exact (ac_c_ne_p H)|]. rewrite ac_tens_p'.
+      destruct ac_parent_own as (X & Y & Z & O1 & O2 & _).
+      pose proof (wf_own1 s Hwf p pn Ep) as Hnd. rewrite ac_tens_p, O1, app_assoc in Hnd.
+      split; [rewrite O2, app_assoc; apply (NoDup_remove_1 _ _ _ Hnd)|].
+      split; [rewrite O2, app_assoc; apply (NoDup_remove_2 _ _ _ Hnd)|].
+      exists pn. split; [exact Ep|]. rewrite ac_tens_p, O1, O2. intros w Hw.
+      rewrite !in_app_iff in *. cbn. tauto.
+    - left. split; [reflexivity|]. rewrite ac_tens, Nat.eqb_refl. apply ac_child_own.
+    - right. split; [exact Hc|].
+      assert (Ht : tens s' k = tens s k).
+      { rewrite ac_tens. destruct (Nat.eqb_spec k c); [contradiction|reflexivity]. }
+      rewrite Ht. split; [apply (wf_own1 s Hwf k nk' E0)|]. split.
+      + intros Hin. apply Hp. apply (wf_own2 s Hwf k nk' p pn pw E0 Ep Hin). rewrite ac_tens_p. apply ac_pw_own.
+      + exists nk'. split; [exact E0|apply incl_refl].
+  Qed.
+
+  Lemma ac_f_own1 k n : aget k (nodes s') = Some n -> NoDup (own_of n (tens s' k)).
+  Proof.
+    intros E. destruct (ac_own k n E) as [[_ ->]|(_ & H & _)]; [apply ac_rest_nodup|exact H].
+  Qed.
+
+  Lemma ac_own_clash k n w : k <> c -> aget k (nodes s') = Some n ->
+    In w (own_of n (tens s' k)) -> In w (pw :: rest) -> False.
+  Proof.
+    intros Hc E Hw1 Hw2. destruct (ac_own k n E) as [[Hk _]|(_ & _ & Hpw & nk & E0 & Hincl)]; [contradiction|].
+    destruct Hw2 as [<-|Hw2]; [contradiction|].
+    apply ac_rest_fresh in Hw2. apply Hincl in Hw1. apply (wf_own_bound s k nk w Hwf E0) in Hw1. lia.
+  Qed.
+
+  Lemma ac_f_own2 k1 n1 k2 n2 w : aget k1 (nodes s') = Some n1 -> aget k2 (nodes s') = Some n2 ->
+    In w (own_of n1 (tens s' k1)) -> In w (own_of n2 (tens s' k2)) -> k1 = k2.
+  Proof.
+    intros E1 E2 H1 H2.
+    destruct (ac_own k1 n1 E1) as [[-> O1]|(Hc1 & _ & _ & m1 & G1 & I1)];
+    destruct (ac_own k2 n2 E2) as [[-> O2]|(Hc2 & _ & _ & m2 & G2 & I2)].
+    - reflexivity.
+    - exfalso. rewrite O1 in H1. apply (ac_own_clash k2 n2 w Hc2 E2 H2 H1).
+    - exfalso. rewrite O2 in H2. apply (ac_own_clash k1 n1 w Hc1 E1 H1 H2).
+    - apply (wf_own2 s Hwf k1 m1 k2 m2 w G1 G2); [apply I1; exact H1|apply I2; exact H2].
+  Qed.
+
+  Lemma ac_f_wires k t w : aget k (tensors s') = Some t -> In w (axes t) -> w < next_wire s'.
+  Proof.
+    unfold childed. cbn [tensors next_wire]. rewrite aget_aset. destruct (Nat.eqb k c).
+    - intros [= <-]. cbn [axes]. unfold child_axes. intros Hw. apply ib_in_set_nth in Hw.
+      destruct Hw as [->|Hw]; [pose proof ac_pw_bound; lia|apply in_seq in Hw; lia].
+    - intros E Hw. pose proof (wf_wires s Hwf k t w E Hw). lia.
+  Qed.
+
+  Lemma ac_f_dims w : In w (akeys (dims s')) -> w < next_wire s'.
+  Proof.
+    unfold childed. cbn [dims next_wire]. rewrite akeys_app, in_app_iff. intros [H|H].
+    - apply (wf_dims s Hwf) in H. lia.
+    - apply ib_akeys_combine in H. apply in_seq in H. lia.
+  Qed.
+
+  Lemma ac_f_acyc : exists depth : id -> nat,
+    forall k kn q, aget k (nodes s') = Some kn -> parent kn = Some q -> depth q < depth k.
+  Proof.
+    destruct (wf_acyc s Hwf) as [d Hd]. exists (fun k => if Nat.eqb k c then S (d p) else d k).
+    assert (Hpc : Nat.eqb p c = false) by (apply Nat.eqb_neq; intros E; symmetry in E; exact (ac_c_ne_p E)).
+    intros k kn q E Hq. destruct (ac_node_cases k kn E) as [[-> ->]|[[-> ->]|(Hp & Hc & E0)]].
+    - rewrite ac_pn'_parent in Hq. pose proof (ac_parent_old p pn q Ep Hq) as Hqc.
+      apply Nat.eqb_neq in Hqc. rewrite Hqc, Hpc. apply (Hd p pn q Ep Hq).
+    - destruct ac_cn as (Hcp & _). rewrite Hcp in Hq. injection Hq as <-. rewrite Nat.eqb_refl, Hpc. lia.
+    - pose proof (ac_parent_old k kn q E0 Hq) as Hqc. apply Nat.eqb_neq in Hqc. apply Nat.eqb_neq in Hc.
+      rewrite Hqc, Hc. apply (Hd k kn q E0 Hq).
+  Qed.
+
+  Theorem ac_wf : wf s'.
+  Proof.
+    constructor.
+    - exact ac_f_nd.
+    - exact ac_f_tnd.
+    - exact ac_f_tn.
+    - exact ac_f_root.
+    - exact ac_f_node.
+    - exact ac_f_own1.
+    - exact ac_f_own2.
+    - exact ac_f_wires.
+    - exact ac_f_dims.
+    - exact ac_f_acyc.
+  Qed.
+
+  (* -- totals -- *)
+  Lemma ac_total_atoms : total_atoms s' = total_atoms s ++ [next_atom s].
+  Proof.
+    unfold total_atoms, childed. cbn [tensors]. rewrite (ib_aset_absent _ _ _ ac_c_absent_t), flat_map_app.
+    reflexivity.
+  Qed.
+
+  Lemma ac_open_wires : Permutation (pw :: open_wires s') (open_wires s ++ rest).
+  Proof.
+    unfold open_wires at 1. unfold childed at 2. cbn [nodes].
+    rewrite (ib_aset_absent _ _ _ ac_c_absent), (ib_aset_app_l _ _ _ _ _ Ep), flat_map_app.
+    cbn [flat_map]. rewrite app_nil_r. unfold node_open at 2. cbn [fst snd].
+    rewrite ac_tens, Nat.eqb_refl, ac_child_open.
+    change (pw :: ?a ++ ?b) with (([pw] ++ a) ++ b). apply Permutation_app_tail.
+    apply (ib_flat_map_aset_perm_extra (node_open s) _ [pw] p pn' pn); [apply (wf_nd s Hwf)|exact Ep| |].
+    - unfold node_open. cbn [fst snd]. rewrite ac_tens_p', ac_tens_p.
+      destruct ac_parent_own as (X & Y & Z & _ & _ & O3 & O4). rewrite O3, O4. cbn [app]. apply Permutation_middle.
+    - intros k2 v2 Hne Hin. unfold node_open. cbn [fst snd]. rewrite ac_tens.
+      destruct (Nat.eqb_spec k2 c) as [->|_]; [|reflexivity].
+      exfalso. apply (In_aget _ _ _ (wf_nd s Hwf)) in Hin. rewrite ac_c_absent in Hin. discriminate.
+  Qed.
+End AddChild.
+
+(* ---- add_child: the public statements --------------------------------------------------------- *)
+Theorem add_child_preserves_wf s c shp cleg p pleg s' :
+  wf s -> add_child s c shp cleg p pleg = Some s' -> wf s'.
+Proof.
+  intros H Ha.
+  destruct (add_child_inv _ _ _ _ _ _ _ Ha) as (pn & pt & cn & pn' & Ep & Et & Ec & Hc & _ & Hd & Hcn & Hpn & ->).
+  eapply ac_wf; eassumption.
+Qed.
+
+Theorem add_child_preserves_wfb s c shp cleg p pleg s' :
+  wfb s = true -> add_child s c shp cleg p pleg = Some s' -> wfb s' = true.
+Proof. intros H Ha. apply wfb_iff. eapply add_child_preserves_wf; [apply wfb_iff; exact H|exact Ha]. Qed.
+
+Theorem add_root_wfb s n shp s' : blank s -> add_root s n shp = Some s' -> wfb s' = true.
+Proof. intros H Ha. apply wfb_iff. eapply add_root_wf; eauto. Qed.
+
+(* the wire on the parent's logical leg pleg (the one handed to the child) *)
+Definition add_child_wire (s : store) (p : id) (pleg : nat) : wire :=
+  match aget p (nodes s) with Some pn => nth pleg (lax s p pn) 0 | None => 0 end.
+
+(* the child's fresh wires: one per axis except the axis cleg *)
+Definition add_child_fresh (s : store) (shp : list nat) (cleg : nat) : list wire :=
+  firstn cleg (seq (next_wire s) (length shp)) ++ skipn (S cleg) (seq (next_wire s) (length shp)).
+
+Lemma parent_wire_lax pn pt pleg : pleg < nlegs pn -> parent_wire pn pt pleg = nth pleg (laxes pn pt) 0.
+Proof.
+  intros H. unfold parent_wire, laxes, permute.
+  transitivity (nth pleg (map (fun i => nth i (axes pt) 0) (perm pn)) (nth 0 (axes pt) 0)).
+  - symmetry. apply (map_nth (fun i => nth i (axes pt) 0)).
+  - apply nth_indep. rewrite map_length. exact H.
+Qed.
+
+Lemma add_child_wire_eq s c shp cleg p pleg s' pn pt :
+  add_child s c shp cleg p pleg = Some s' -> aget p (nodes s) = Some pn -> aget p (tensors s) = Some pt ->
+  add_child_wire s p pleg = parent_wire pn pt pleg.
+Proof.
+  intros Ha Ep Et.
+  destruct (add_child_inv _ _ _ _ _ _ _ Ha) as (pn0 & pt0 & cn & pn' & Ep0 & Et0 & _ & _ & Hl & _).
+  rewrite Ep in Ep0. injection Ep0 as <-. unfold add_child_wire, lax. rewrite Ep, (tens_aget _ _ _ Et).
+  symmetry. apply parent_wire_lax. exact Hl.
+Qed.
+
+(* atoms: exactly one new atom, appended *)
+Theorem add_child_total_atoms s c shp cleg p pleg s' :
+  wf s -> add_child s c shp cleg p pleg = Some s' -> total_atoms s' = total_atoms s ++ [next_atom s].
+Proof.
+  intros H Ha.
+  destruct (add_child_inv _ _ _ _ _ _ _ Ha) as (pn & pt & cn & pn' & Ep & Et & Ec & Hc & _ & Hd & Hcn & Hpn & ->).
+  eapply ac_total_atoms; eassumption.
+Qed.
+
+Corollary add_child_total_atoms_perm s c shp cleg p pleg s' :
+  wf s -> add_child s c shp cleg p pleg = Some s' -> Permutation (total_atoms s') (next_atom s :: total_atoms s).
+Proof.
+  intros H Ha. rewrite (add_child_total_atoms _ _ _ _ _ _ _ H Ha). symmetry. apply Permutation_cons_append.
+Qed.
+
+(* open wires: the parent's wire is consumed, the child's fresh wires appear *)
+Theorem add_child_open_wires s c shp cleg p pleg s' :
+  wf s -> add_child s c shp cleg p pleg = Some s' ->
+  Permutation (add_child_wire s p pleg :: open_wires s') (open_wires s ++ add_child_fresh s shp cleg).
+Proof.
+  intros H Ha. pose proof Ha as Ha'.
+  destruct (add_child_inv _ _ _ _ _ _ _ Ha) as (pn & pt & cn & pn' & Ep & Et & Ec & Hc & _ & Hd & Hcn & Hpn & ->).
+  rewrite (add_child_wire_eq _ _ _ _ _ _ _ pn pt Ha' Ep Et). unfold add_child_fresh.
+  eapply ac_open_wires; eassumption.
+Qed.
+
+(* the consumed wire was an open wire of the old store, the fresh ones are new *)
+Theorem add_child_wire_open s c shp cleg p pleg s' :
+  wf s -> add_child s c shp cleg p pleg = Some s' ->
+  In (add_child_wire s p pleg) (open_wires s) /\ add_child_wire s p pleg < next_wire s /\
+  (forall w, In w (add_child_fresh s shp cleg) -> next_wire s <= w < next_wire s') /\
+  next_wire s' = next_wire s + length shp /\ NoDup (add_child_fresh s shp cleg).
+Proof.
+  intros H Ha. pose proof Ha as Ha'.
+  destruct (add_child_inv _ _ _ _ _ _ _ Ha) as (pn & pt & cn & pn' & Ep & Et & Ec & Hc & _ & Hd & Hcn & Hpn & ->).
+  rewrite (add_child_wire_eq _ _ _ _ _ _ _ pn pt Ha' Ep Et).
+  split; [|split; [|split; [|split]]].
+  - unfold open_wires. apply in_flat_map. exists (p, pn). split; [apply aget_In; exact Ep|].
+    unfold node_open. cbn [fst snd]. rewrite (tens_aget _ _ _ Et).
+    destruct (ac_parent_own s c shp cleg pleg pn pt pn' Hc Hd Hpn) as (X & Y & Z & _ & _ & O3 & _). rewrite O3.
+    apply in_or_app. right. left. reflexivity.
+  - eapply ac_pw_bound; eassumption.
+  - intros w Hw. unfold add_child_fresh in Hw. apply ib_remove_nth_incl in Hw. apply in_seq in Hw.
+    unfold childed. cbn [next_wire]. exact Hw.
+  - reflexivity.
+  - unfold add_child_fresh. apply ib_NoDup_remove_nth. apply seq_NoDup.
+Qed.
+
+(* ---- runs of building operations ------------------------------------------------------------- *)
+Definition is_build_op (o : op) : bool :=
+  match o with AddRoot _ _ => true | AddChild _ _ _ _ _ => true | _ => false end.
+Definition is_add_root (o : op) : bool := match o with AddRoot _ _ => true | _ => false end.
+
+Lemma wf_root_some s : wf s -> root s <> None.
+Proof. intros H. destruct (wf_root s H) as (r & rn & Hr & _). congruence. Qed.
+
+Lemma blank_not_wf s : blank s -> ~ wf s.
+Proof. intros (_ & _ & Hr & _) H. apply (wf_root_some s H). exact Hr. Qed.
+
+Lemma blank_wfb s : blank s -> wfb s = false.
+Proof.
+  intros B. destruct (wfb s) eqn:E; [|reflexivity]. apply wfb_iff in E. destruct (blank_not_wf s B E).
+Qed.
+
+Lemma add_child_blank_rejected s c shp cleg p pleg : blank s -> add_child s c shp cleg p pleg = None.
+Proof. intros (Bn & _). unfold add_child. rewrite Bn. reflexivity. Qed.
+
+(* on a well-formed store AddRoot is rejected (there is a root), AddChild preserves the invariant *)
+Theorem step_build_wf s o s' : wf s -> is_build_op o = true -> step s o = Some s' -> wf s'.
+Proof.
+  intros H Hb Hs. destruct o; cbn in Hb; try discriminate; cbn [step] in Hs.
+  - rewrite add_root_rejected in Hs; [discriminate|apply wf_root_some; exact H].
+  - eapply add_child_preserves_wf; eauto.
+Qed.
+
+(* on a blank store exactly the AddRoot operations are accepted, and they establish the invariant *)
+Theorem step_build_blank s o : blank s -> is_build_op o = true ->
+  match step s o with
+  | Some s' => is_add_root o = true /\ wf s'
+  | None => is_add_root o = false
+  end.
+Proof.
+  intros B Hb. destruct o; cbn in Hb; try discriminate; cbn [step is_add_root].
+  - destruct (add_root_accepted s n shp) as [s' Hs]; [apply B|]. rewrite Hs. split; [reflexivity|].
+    eapply add_root_wf; eauto.
+  - rewrite add_child_blank_rejected by exact B. reflexivity.
+Qed.
+
+Theorem run_build_wf : forall ops s, wf s -> forallb is_build_op ops = true -> wf (fst (run s ops)).
+Proof.
+  induction ops as [|o t IH]; intros s H Hb; cbn [run forallb] in *; [exact H|].
+  apply andb_true_iff in Hb. destruct Hb as [Ho Ht].
+  destruct (step s o) as [s'|] eqn:Es.
+  - specialize (IH s' (step_build_wf s o s' H Ho Es) Ht). destruct (run s' t) as [sf oks]. exact IH.
+  - specialize (IH s H Ht). destruct (run s t) as [sf oks]. exact IH.
+Qed.
+
+(* from a blank store: nothing happens until the first AddRoot; from then on the invariant holds *)
+Theorem run_build_blank : forall ops s, blank s -> forallb is_build_op ops = true ->
+  (existsb is_add_root ops = true -> wf (fst (run s ops))) /\
+  (existsb is_add_root ops = false -> fst (run s ops) = s).
+Proof.
+  induction ops as [|o t IH]; intros s B Hb; cbn [run forallb existsb] in *.
+  - split; [discriminate|reflexivity].
+  - apply andb_true_iff in Hb. destruct Hb as [Ho Ht].
+    pose proof (step_build_blank s o B Ho) as Hs. destruct (step s o) as [s'|] eqn:Es.
+    + destruct Hs as [Hr Hw]. rewrite Hr. cbn [orb]. split; [|discriminate]. intros _.
+      pose proof (run_build_wf t s' Hw Ht) as Hf. destruct (run s' t) as [sf oks]. exact Hf.
+    + rewrite Hs. cbn [orb]. destruct (IH s B Ht) as [I1 I2]. destruct (run s t) as [sf oks]. split; assumption.
+Qed.
+
+Corollary run_build_empty ops : forallb is_build_op ops = true -> existsb is_add_root ops = true ->
+  wf (fst (run empty_store ops)).
+Proof. intros Hb He. apply (run_build_blank ops empty_store blank_empty Hb). exact He. Qed.
+
+(* the checker's verdict after every operation of a building run *)
+Fixpoint after_root (seen : bool) (ops : list op) : list bool :=
+  match ops with
+  | [] => []
+  | o :: t => let b := seen || is_add_root o in b :: after_root b t
+  end.
+
+Lemma after_root_true ops : after_root true ops = map (fun _ => true) ops.
+Proof. induction ops as [|o t IH]; cbn; [reflexivity|]. f_equal. exact IH. Qed.
+
+Theorem run_wfb_build_wf : forall ops s, wf s -> forallb is_build_op ops = true ->
+  run_wfb s ops = map (fun _ => true) ops.
+Proof.
+  induction ops as [|o t IH]; intros s H Hb; cbn [run_wfb forallb map] in *; [reflexivity|].
+  apply andb_true_iff in Hb. destruct Hb as [Ho Ht].
+  destruct (step s o) as [s'|] eqn:Es.
+  - pose proof (step_build_wf s o s' H Ho Es) as H'. rewrite (IH s' H' Ht). f_equal. apply wfb_iff. exact H'.
+  - rewrite (IH s H Ht). f_equal. apply wfb_iff. exact H.
+Qed.
+
+Theorem run_wfb_build_blank : forall ops s, blank s -> forallb is_build_op ops = true ->
+  run_wfb s ops = after_root false ops.
+Proof.
+  induction ops as [|o t IH]; intros s B Hb; cbn [run_wfb forallb after_root] in *; [reflexivity|].
+  apply andb_true_iff in Hb. destruct Hb as [Ho Ht]. cbn [orb].
+  pose proof (step_build_blank s o B Ho) as Hs. destruct (step s o) as [s'|] eqn:Es.
+  - destruct Hs as [Hr Hw]. rewrite Hr. rewrite after_root_true, (run_wfb_build_wf t s' Hw Ht).
+    f_equal. apply wfb_iff. exact Hw.
+  - rewrite Hs. rewrite (IH s B Ht). f_equal. apply blank_wfb. exact B.
+Qed.
+
+Corollary run_wfb_build_empty ops : forallb is_build_op ops = true ->
+  run_wfb empty_store ops = after_root false ops.
+Proof. apply run_wfb_build_blank. apply blank_empty. Qed.
